@@ -188,3 +188,54 @@ package genetics
 //@     exit [member] bestCompatible != nil ==> bestCompatValue < opts.CompatThreshold && (exists j :: 0 <= j && j < len(p.Species) && p.Species[j] == bestCompatible && len(p.Species[j].Organisms) > 0 && bestCompatValue == distU(currOrg.Genotype, p.Species[j].Organisms[0].Genotype))
 //@     exit [nearest] bestCompatible != nil ==> (forall m :: 0 <= m && m < len(p.Species) && len(p.Species[m].Organisms) > 0 && distU(currOrg.Genotype, p.Species[m].Organisms[0].Genotype) < opts.CompatThreshold ==> bestCompatValue <= distU(currOrg.Genotype, p.Species[m].Organisms[0].Genotype))
 //@     exit [flag] done <==> bestCompatible != nil
+
+// ---- C09: offspring quotas ----------------------------------------------------------------------
+// sumField(s, heapOf(T.f)) is the sum of field f over the objects listed in slice s; distinctRefs(s) says that s lists
+// pairwise distinct objects (definitions and the induction lemmas about them: /verif/contracts/externals.spec).
+//@ func (*Species).countOffspring
+//@   props C09
+//@   requires s != nil && 0.0 <= skim && skim < 1.0
+//@   requires forall k :: 0 <= k && k < len(s.Organisms) ==> s.Organisms[k] != nil && s.Organisms[k].ExpectedOffspring >= 0.0
+//@   modifies nothing
+//@   noalloc
+//@   ensures [carry] 0.0 <= result1 && result1 < 1.0
+//@   ensures [nonneg] result0 >= 0
+//@   ensures [conserve] real(result0) + result1 == skim + sumFieldR(s.Organisms, heapOf(Organism.ExpectedOffspring))
+//@   loop 1:
+//@     invariant -1 <= #idx && #idx < len(s.Organisms) && expectedOffspring >= 0
+//@     invariant 0.0 <= skim && skim < 1.0
+//@     invariant real(expectedOffspring) + skim == old(skim) + sumFieldR(s.Organisms[0:#idx+1], heapOf(Organism.ExpectedOffspring))
+//@ pred speciesListWF(ss []*Species) = forall i :: 0 <= i && i < len(ss) ==> ss[i] != nil && len(ss[i].Organisms) > 0 && ss[i].Organisms[0] != nil && ss[i].ExpectedOffspring >= 0
+//@ func (*Population).giveBabiesToTheBest
+//@   props C09 C02
+//@   uses sumFI_update memberAt
+//@   requires p != nil && opts != nil && opts.BabiesStolen >= 0
+//@   requires len(sortedSpecies) > 0 && speciesListWF(sortedSpecies) && distinctRefs(sortedSpecies)
+//@   modifies Species.ExpectedOffspring, Organism.superChampOffspring
+//@   ensures [conserve] sumField(sortedSpecies, heapOf(Species.ExpectedOffspring)) == old(sumField(sortedSpecies, heapOf(Species.ExpectedOffspring)))
+//@   ensures [nonneg] forall i :: 0 <= i && i < len(sortedSpecies) ==> sortedSpecies[i].ExpectedOffspring >= 0
+//@   loop 1:
+//@     invariant -1 <= i && i < len(sortedSpecies) && 0 <= stolenBabies && stolenBabies <= opts.BabiesStolen
+//@     invariant sumField(sortedSpecies, heapOf(Species.ExpectedOffspring)) + stolenBabies == old(sumField(sortedSpecies, heapOf(Species.ExpectedOffspring)))
+//@     invariant forall k :: 0 <= k && k < len(sortedSpecies) ==> sortedSpecies[k].ExpectedOffspring >= 0
+//@   loop 2:
+//@     invariant -1 <= #idx && #idx < len(sortedSpecies) && 0 <= stolenBabies && 0 <= blockIndex
+//@     invariant len(stolenBlocks) == 3 && stolenBlocks[0] >= 0 && stolenBlocks[1] >= 0 && stolenBlocks[2] >= 0
+//@     invariant sumField(sortedSpecies, heapOf(Species.ExpectedOffspring)) + stolenBabies == old(sumField(sortedSpecies, heapOf(Species.ExpectedOffspring)))
+//@     invariant forall k :: 0 <= k && k < len(sortedSpecies) ==> sortedSpecies[k].ExpectedOffspring >= 0
+//@ func (*Population).deltaCoding
+//@   props C09 C02
+//@   requires p != nil && opts != nil && opts.PopSize >= 0
+//@   requires len(sortedSpecies) > 0 && speciesListWF(sortedSpecies) && (len(sortedSpecies) > 1 ==> sortedSpecies[0] != sortedSpecies[1])
+//@   requires forall i :: 2 <= i && i < len(sortedSpecies) ==> sortedSpecies[i] != sortedSpecies[0] && sortedSpecies[i] != sortedSpecies[1]
+//@   requires len(sortedSpecies) > 1 ==> sortedSpecies[0].Organisms[0] != sortedSpecies[1].Organisms[0]
+//@   modifies Species.ExpectedOffspring, Species.AgeOfLastImprovement, Organism.superChampOffspring, Population.EpochsHighestLastChanged
+//@   ensures [single] len(sortedSpecies) == 1 ==> sortedSpecies[0].ExpectedOffspring == opts.PopSize
+//@   ensures [topTwo] len(sortedSpecies) > 1 ==> sortedSpecies[0].ExpectedOffspring + sortedSpecies[1].ExpectedOffspring == opts.PopSize && sortedSpecies[0].ExpectedOffspring == opts.PopSize / 2
+//@   ensures [rest] forall i :: 2 <= i && i < len(sortedSpecies) ==> sortedSpecies[i].ExpectedOffspring == 0
+//@   ensures [champs] sortedSpecies[0].Organisms[0].superChampOffspring <= sortedSpecies[0].ExpectedOffspring
+//@   loop 1:
+//@     invariant 2 <= i && i <= len(sortedSpecies)
+//@     invariant sortedSpecies[0].ExpectedOffspring == opts.PopSize / 2 && sortedSpecies[1].ExpectedOffspring == opts.PopSize - opts.PopSize / 2
+//@     invariant forall k :: 2 <= k && k < i ==> sortedSpecies[k].ExpectedOffspring == 0
+//@     invariant sortedSpecies[0].Organisms[0].superChampOffspring <= sortedSpecies[0].ExpectedOffspring
